@@ -8,7 +8,7 @@ from .. import algebra as A
 from ..algebra import Extractor, Rat, Unsupported
 from ..cfg import CFG
 from ..core import Ctx
-from ..model import body_stmts, dotted, kwarg, norm, walk_no_nested
+from ..model import body_stmts, canon, dotted, kwarg, norm, walk_no_nested
 from .common import assigned_value, enclosing, prog, resolve_local, stores_to
 
 CG = "Continuum.compute_gamma"
@@ -307,13 +307,16 @@ def run(ctx: Ctx):
     for qn, acc in specs.items():
         g = ctx.fn(qn, "R-C05-5")
         b = body_stmts(g.node)
-        got = norm(b[0].value) if len(b) == 1 and isinstance(b[0], ast.Return) else None
-        if got is not None and isinstance(b[0].value, ast.AST):
-            import re
-            for comp in ast.walk(b[0].value):
-                if isinstance(comp, (ast.ListComp, ast.GeneratorExp)) and isinstance(comp.generators[0].target, ast.Name):
-                    got = re.sub(rf"\b{comp.generators[0].target.id}\b", "align", got)
-            got = got.replace("(align.disorder for align in self.chance_alignments)", "[align.disorder for align in self.chance_alignments]")
+        got = None
+        if len(b) == 1 and isinstance(b[0], ast.Return) and b[0].value is not None:
+            import copy as _c
+            v = _c.deepcopy(b[0].value)
+            for comp in ast.walk(v):
+                for fld in ("args",):
+                    if isinstance(comp, ast.Call):
+                        comp.args = [ast.ListComp(elt=a.elt, generators=a.generators) if isinstance(a, ast.GeneratorExp) else a for a in comp.args]
+            got = canon(v)
+        acc = {canon(a) for a in acc}
         ctx.check(got in acc, "R-C05-5", g, b[0] if b else None, f"{qn} == {got}", bad_detail=f"{qn} returns `{got}`; definition: {sorted(acc)}", key="accessor")
     g = ctx.fn("GammaResults.gamma", "R-C05-5")
     gcfg = CFG(g.node)
